@@ -7,6 +7,7 @@ package main
 // In-process through the real mux; and end-to-end over TCP (a panic shows as a dropped connection there).
 
 import (
+	"encoding/hex"
 	"bytes"
 	"crypto/ed25519"
 	"fmt"
@@ -60,6 +61,22 @@ func tlvMalformed(r *rand.Rand, path string, stateByte byte) []malInput {
 	mk("huge public key", tlvMsg(tlvOp{tState, b1(stateByte)}, tlvOp{tPubKey, randBytes(r, 5000)}, tlvOp{tProof, randBytes(r, 900)}), "")
 	mk("64 KiB of encrypted data", tlvMsg(tlvOp{tState, b1(stateByte)}, tlvOp{tEnc, randBytes(r, 65536)}), "")
 	mk("encrypted data of exactly 16 zero bytes", tlvMsg(tlvOp{tState, b1(stateByte)}, tlvOp{tEnc, make([]byte, 16)}), "")
+	if path == "/pair-verify" {
+		// Curve25519 points of small order (the shared secret is all zero) and non-canonical encodings, as the key of a start request
+		for _, h := range []string{
+			"0000000000000000000000000000000000000000000000000000000000000000",
+			"0100000000000000000000000000000000000000000000000000000000000000",
+			"e0eb7a7c3b41b8ae1656e3faf19fc46ada098deb9c32b1fd866205165f49b800",
+			"5f9c95bca3508c24b1d0b1559c83ef5b04445cc4581c8e86d8224eddd09f1157",
+			"ecffffffffffffffffffffffffffffffffffffffffffffffffffffffffffff7f",
+			"edffffffffffffffffffffffffffffffffffffffffffffffffffffffffffff7f",
+			"eeffffffffffffffffffffffffffffffffffffffffffffffffffffffffffff7f",
+			"ffffffffffffffffffffffffffffffffffffffffffffffffffffffffffffffff",
+		} {
+			k, _ := hex.DecodeString(h)
+			mk("start request whose key is the small-order / non-canonical point "+h[:8]+"…", tlvMsg(tlvOp{tState, b1(1)}, tlvOp{tPubKey, k}), "")
+		}
+	}
 	mk("all items empty values", tlvMsg(tlvOp{tState, b1(stateByte)}, tlvOp{tPubKey, nil}, tlvOp{tProof, nil}, tlvOp{tEnc, nil}), "")
 	return out
 }
@@ -511,5 +528,69 @@ func checkC13E2E(c *Ctx) {
 		}
 		n2.Close()
 		c.Trace()
+	}
+	// ---- well-formed requests of a verified peer whose size is an exact multiple of the frame size, and a peer that stalls
+	verified := func(what string) *refClient {
+		cl, err := acc.Dial()
+		if err != nil {
+			c.Violate("accessory does not accept connections any more", id, what, "connect", err.Error())
+			return nil
+		}
+		vr := refPairVerify(r, cl.Post(), ident, sr.AccLTPK)
+		if vr.Shared == nil {
+			c.Violate("paired reference controller cannot verify", id, what, "verified", vr.ErrAt)
+			cl.Close()
+			return nil
+		}
+		cl.Upgrade(vr.Shared)
+		return cl
+	}
+	if cl := verified("sized requests"); cl != nil {
+		cl.timeout = 1500 * time.Millisecond
+		for _, total := range []int{300, 1023, 1024, 1025, 2048, 3072} {
+			body := fmt.Sprintf(`{"characteristics":[{"aid":%d,"iid":%d,"value":%v}]}`, swID, onID, total%2 == 0)
+			head := func(n int) string {
+				return fmt.Sprintf("PUT /characteristics HTTP/1.1\r\nHost: acc.local\r\nContent-Type: application/hap+json\r\nContent-Length: %d\r\n\r\n", n)
+			}
+			pad := total - len(head(len(body))) - len(body)
+			for pad > 0 && len(head(len(body)+pad))+len(body)+pad != total { // the length field may grow by a digit
+				pad--
+			}
+			if pad < 0 {
+				pad = 0
+			}
+			full := head(len(body)+pad) + body + strings.Repeat(" ", pad)
+			desc := fmt.Sprintf("tcp verified connection: well-formed PUT /characteristics of exactly %d bytes", len(full))
+			cl.send([]byte(full))
+			m, err := cl.next(cl.timeout)
+			c.Count(desc, true, "e2e:sized")
+			if err != nil || m == nil || m.Status != 204 {
+				c.Violate("a well-formed request of a verified peer is not answered", id, desc, "204", fmt.Sprint(err, m))
+				break
+			}
+		}
+		cl.Close()
+	}
+	if a, b := verified("stall A"), verified("stall B"); a != nil && b != nil {
+		body := fmt.Sprintf(`{"characteristics":[{"aid":%d,"iid":%d,"value":true}]}`, swID, onID)
+		part := fmt.Sprintf("PUT /characteristics HTTP/1.1\r\nHost: acc.local\r\nContent-Type: application/hap+json\r\nContent-Length: %d\r\n\r\n%s", len(body), body[:len(body)/2])
+		a.send([]byte(part)) // … and then nothing
+		time.Sleep(30 * time.Millisecond)
+		b.timeout = 1500 * time.Millisecond
+		desc := "tcp: a verified peer sent the head and half the body of a PUT and went silent; another verified peer"
+		for _, rq := range [][2]string{{"GET", "/accessories"}, {"PUT", "/characteristics"}, {"GET", fmt.Sprintf("/characteristics?id=%d.%d", swID, onID)}} {
+			var bb []byte
+			if rq[0] == "PUT" {
+				bb = []byte(fmt.Sprintf(`{"characteristics":[{"aid":%d,"iid":%d,"value":false}]}`, swID, onID))
+			}
+			m, err := b.Do(rq[0], rq[1], "application/hap+json", bb)
+			c.Count(desc+rq[0]+rq[1], true, "e2e:stall")
+			if err != nil || m == nil || m.Status >= 400 {
+				c.Violate("one peer that stalls in the middle of a request leaves the accessory unable to serve the others", id, desc+": "+rq[0]+" "+rq[1], "served", fmt.Sprint(err, m))
+				break
+			}
+		}
+		a.Close()
+		b.Close()
 	}
 }
